@@ -231,7 +231,7 @@ func TestC13(t *testing.T) {
 		}
 		return
 	}
-	dl := vk.NewDeadline(vk.Pick(run, 10*time.Minute, 100*time.Minute))
+	dl := vk.NewDeadline(vk.Pick(run, 10*time.Minute, 45*time.Minute))
 	var cases []c13Case
 	add := func(answers []string, order []int) {
 		for _, m := range []string{"get", "getbyheight"} {
